@@ -362,7 +362,7 @@ pub fn any_emodel(ne: usize, nb: usize, nested: bool) -> EModel {
     EModel { e: Stk { v: ev, n: ne, max: emax }, b: Stk { v: bv, n: nb, max: bmax }, i: Stk { v: iv, n: 1, max: imax } }
 }
 
-#[cfg(kani)]
+#[cfg(all(kani, feature = "pushvm"))]
 mod proofs {
     use super::*;
 
